@@ -45,13 +45,13 @@ var reviewedPanics = map[string]struct {
 	n   int
 	why string
 }{
-	"(*errNotifier).Notify":               {1, "Notify(nil) is a programming error: every caller passes the non-nil error it is handling"},
-	"(*fragmentingWriter).BeginArgument":  {1, "writer-side size invariant maintained by the writer's own keep-open rule (C01-R4); not reached from received bytes"},
-	"(*relayTimer).Release":               {1, "relay timer protocol (C09): release of an active timer is a library bug, not input-driven"},
-	"(*relayTimer).Start":                 {2, "relay timer protocol (C09): double start is a library bug, not input-driven"},
-	"(*relayTimer).verifyNotReleased":     {1, "relay timer protocol (C09), only when verification is enabled"},
-	"(*relayTimerPool).Get":               {1, "pooled timer that cannot be stopped: library bug, not input-driven"},
-	"newPeer":                             {1, "blank host:port cannot come from a peer: parseRemotePeer replaces an empty/ephemeral host:port by the socket address (C13-R5)"},
+	"(*errNotifier).Notify":              {1, "Notify(nil) is a programming error: every caller passes the non-nil error it is handling"},
+	"(*fragmentingWriter).BeginArgument": {1, "writer-side size invariant maintained by the writer's own keep-open rule (C01-R4); not reached from received bytes"},
+	"(*relayTimer).Release":              {1, "relay timer protocol (C09): release of an active timer is a library bug, not input-driven"},
+	"(*relayTimer).Start":                {2, "relay timer protocol (C09): double start is a library bug, not input-driven"},
+	"(*relayTimer).verifyNotReleased":    {1, "relay timer protocol (C09), only when verification is enabled"},
+	"(*relayTimerPool).Get":              {1, "pooled timer that cannot be stopped: library bug, not input-driven"},
+	"newPeer":                            {1, "blank host:port cannot come from a peer: parseRemotePeer replaces an empty/ephemeral host:port by the socket address (C13-R5)"},
 }
 
 func readerRoots(p *core.Prog, r *core.Report) []*ssa.Function {
@@ -550,5 +550,7 @@ func SyncReach(p *core.Prog, roots ...*ssa.Function) map[*ssa.Function]bool {
 	}
 	return seen
 }
-func syncReach(p *core.Prog, roots ...*ssa.Function) map[*ssa.Function]bool { return SyncReach(p, roots...) }
+func syncReach(p *core.Prog, roots ...*ssa.Function) map[*ssa.Function]bool {
+	return SyncReach(p, roots...)
+}
 func PeerFuncs(p *core.Prog) []*ssa.Function { return peerFuncs(p, false) }
